@@ -19,6 +19,29 @@ def pq_to_nits(x):
     return (num / den) ** (1.0 / M1) * 10000.0
 
 
+def boundary_codes():
+    """12-bit PQ codes whose luminance lies within 1.5 % of a bucket boundary of the summary's
+    rounding (x50 nits for the L2 line): a wrong scale (4096 for 4095), truncation for rounding or
+    a neighbouring code all move such a value into the next bucket"""
+    out = []
+    for c in range(1, 4096):
+        n = pq_to_nits(c / 4095.0)
+        f = (n / 100.0) % 1.0
+        if abs(f - 0.5) < 0.015 * max(1.0, n / 100.0) and n >= 40:
+            out.append(c)
+    return out
+
+
+def steer_l2(r, tree, codes):
+    """give some L2 blocks a target_max_pq next to a rounding boundary of the summary"""
+    d = tree.get("vdr_dm_data")
+    if not d or not d.get("cmv29_metadata"):
+        return
+    for b in d["cmv29_metadata"]["ext_metadata_blocks"]:
+        if "Level2" in b and r.random() < 0.5:
+            b["Level2"]["target_max_pq"] = r.choice(codes)
+
+
 def set_l5(tree, key):
     """key = None (no L5 block) or (l, r, t, b)"""
     d = tree.get("vdr_dm_data")
@@ -119,6 +142,7 @@ def run(res):
     w = cli.Work("c16")
     ncase = 25 if res.tier == "quick" else 300
     nrun = 0
+    BCODES = boundary_codes()
     stats = {"frames": 0, "l5_runs": 0, "info_frames": 0, "editor_roundtrips": 0}
     for k in range(ncase):
         n = r.choice([1, 2, 3, 5, 8, 12, 20])
@@ -146,6 +170,7 @@ def run(res):
             else:
                 key = None
             set_l5(t, key)
+            steer_l2(r, t, BCODES)
             if t.get("vdr_dm_data"):
                 t["vdr_dm_data"]["scene_refresh_flag"] = r.choice([0, 0, 0, 1])
             raw = G.encode(t).rstrip(b"\x00")
